@@ -43,6 +43,7 @@ type Config struct {
 	RestartEvery int
 	Redirect    map[string]string // callee full name -> harness function (same signature) in the entry package
 	RealLogger  bool // execute rogger.Logger methods instead of treating them as no-ops
+	RealFuncs   []string // functions executed for real although the engine has an intrinsic for them
 	StubError   []string // functions (name prefixes) replaced by: zero results with an arbitrary nil / non-nil error
 	SkipInit    []string // repo packages whose initialisers are not run (globals stay zero)
 	ConcretizeDiv []string // function-name prefixes: integer quotients computed there are case-split by value
@@ -72,6 +73,15 @@ type logEntry struct {
 }
 
 // Violation is a counterexample found by the solver.
+func (c *Config) realFunc(name string) bool {
+	for _, f := range c.RealFuncs {
+		if f == name {
+			return true
+		}
+	}
+	return false
+}
+
 type Violation struct {
 	Label   string
 	Kind    string // check | panic | exit | alloc | unwind | deadlock
